@@ -29,8 +29,21 @@ Proof. intros H; exact H. Qed.
 Lemma wp_fail {A} p (Q : A -> db -> Prop) (X : panic -> db -> Prop) s : X p s -> wp (fail p) Q X s.
 Proof. intros H; exact H. Qed.
 
-Lemma wp_emit e (Q : unit -> db -> Prop) (X : panic -> db -> Prop) s : Q tt (set_log s (e :: d_log s)) -> wp (emit e) Q X s.
-Proof. intros H; exact H. Qed.
+Lemma wp_emit e (Q : unit -> db -> Prop) (X : panic -> db -> Prop) s :
+  (forall s1, d_revs s1 = d_revs s -> d_in s1 = d_in s -> d_cell s1 = d_cell s ->
+              d_pcell s1 = d_pcell s -> d_memo s1 = d_memo s -> d_seen s1 = d_seen s ->
+              d_stack s1 = d_stack s -> d_lru s1 = d_lru s ->
+              (d_evfault s = None -> d_evfault s1 = None) ->
+              d_log s1 = e :: d_log s -> Q tt s1) ->
+  (d_evfault s <> None -> X PInjected (set_evfault s None)) ->
+  wp (emit e) Q X s.
+Proof.
+  intros HQ HX. unfold wp, emit.
+  destruct (d_evfault s) as [[|n]|] eqn:He.
+  - apply HX. discriminate.
+  - apply HQ; try reflexivity. discriminate.
+  - apply HQ; try reflexivity. intros _. cbn. exact He.
+Qed.
 
 Lemma wp_conseq {A} (m : M A) (Q Q' : A -> db -> Prop) (X X' : panic -> db -> Prop) s :
   wp m Q X s -> (forall a s', Q a s' -> Q' a s') -> (forall p s', X p s' -> X' p s') -> wp m Q' X' s.
